@@ -80,7 +80,10 @@ def canon(labels) -> str:
 
 
 def under(d: str, labels) -> list[str]:
-    """The property itself: byte-exact, slash-terminated prefix."""
+    """The property itself: byte-exact, slash-terminated prefix; the project root (`./`, as `tui._normalize_targets`
+    spells it) contains every root-relative label that does not climb out of it."""
+    if d == "./":
+        return sorted({l for l in labels if not l.startswith(("/", "../"))})
     return sorted({l for l in labels if l.startswith(d)})
 
 
@@ -224,6 +227,9 @@ async def site_ranges(r, n) -> list[Case]:
     for _ in range(n):
         dirs, labels = label_universe(r, 8)
         tdirs = [d + "/" for d in r.sample(dirs, min(len(dirs), 2))]
+        if r.random() < 0.2:
+            # `stepup build ./`: the project root as the directory target
+            tdirs, dirs = ["./"], [*dirs, "."]
         async with implkit.workflow(target_dirs=tdirs, with_scheduler=True) as (wf, sched):
             async with wf.db:
                 wf.define_step(wf.root, "boot", need=Need.PLAN)
@@ -251,8 +257,8 @@ async def site_ranges(r, n) -> list[Case]:
                 ).fetchall()
                 elevated = sorted(producers[x] for (x,) in rows if x in producers)
                 for td in tdirs:
-                    sel = [l for l in elevated if l.startswith(td)]
-                    other = [l for l in elevated if not any(l.startswith(t) for t in tdirs)]
+                    sel = under(td, elevated)
+                    other = [l for l in elevated if not any(l in under(t, elevated) for t in tdirs)]
                     out.append(Case("update_check_after_dir", f"c18 range {hexs(td)} {hexlist(outs)}",
                                     canon(sel), {"dir": td, "outputs": outs, "elevated": elevated},
                                     ("set", under(td, outs))))
@@ -268,11 +274,11 @@ async def site_ranges(r, n) -> list[Case]:
                 flagged = sorted(producers[x] for (x,) in rows if x in producers)
                 # steps whose implied need is TARGET are flagged too (first statement of reconcile)
                 for td in tdirs:
-                    sel = [l for l in flagged if l.startswith(td)]
+                    sel = under(td, flagged)
                     out.append(Case("reconcile_target_dirs", f"c18 range {hexs(td)} {hexlist(outs)}",
                                     canon(sel), {"dir": td, "outputs": outs, "flagged": flagged},
                                     ("set", under(td, outs))))
-                stray = [l for l in flagged if not any(l.startswith(t) for t in tdirs)]
+                stray = [l for l in flagged if not any(l in under(t, flagged) for t in tdirs)]
                 if stray:
                     out.append(Case("reconcile_target_dirs", "", "flagged-outside:" + canon(stray),
                                     {"dirs": tdirs, "outputs": outs, "flagged": flagged}, ("set", [])))
@@ -456,8 +462,8 @@ def _signature(c: Case, got, exp) -> str:
         if extra and all(x.lower().startswith(d.lower().rstrip("/")) and not x.startswith(d.rstrip("/")) for x in extra) \
                 and not missing:
             return "like-ascii-case"
-        return f"{c.site}:{'extra' if extra else ''}{'missing' if missing else ''}"
-    return f"{c.site}:wrong"
+        return f"{c.site}:{'extra' if extra else ''}{'missing' if missing else ''}" + (":root-directory" if d == "./" else "")
+    return f"{c.site}:wrong" + (":root-directory" if (c.inp.get("dir") == "./") else "")
 
 
 async def search(ctx):
